@@ -97,6 +97,14 @@ def _inputs():
     """the input files, written once per process (removed at exit)"""
     if "ind" not in _CACHE:
         import atexit
+        # pool workers are killed at the end of a run, so their atexit handlers do not fire: sweep what earlier runs left behind
+        import glob, time
+        for stale in glob.glob("/var/tmp/c10wrin*"):
+            try:
+                if time.time() - os.path.getmtime(stale) > 1800:
+                    shutil.rmtree(stale, ignore_errors=True)
+            except OSError:
+                pass
         r = tempfile.mkdtemp(dir="/var/tmp", prefix="c10wrin")
         atexit.register(shutil.rmtree, r, ignore_errors=True)
         _CACHE["ind"] = _write_inputs(r)
